@@ -17,13 +17,33 @@ from . import common as C
 from . import tools as T
 
 
+GET_T = ["INT", "STRING", "FLOAT"]
+
+
 def c_source(cases):
     out = ["#include <mruby.h>", ""]
     regs = []
     for i, c in enumerate(cases):
         fn = "vf_fn_%d" % i
         body = "  return mrb_nil_value();"
-        if c["kind"] == "cspec":
+        form = c.get("form", "method")
+        if c["kind"] == "cgetarg":
+            g = c["g"]
+            reads = []
+            for a in range(1, g["n"] + 1):
+                line = "int a%d = GET_%s_ARG(%d);" % (a, GET_T[(a - 1) % 3], a)
+                reads.append(line)
+            if g["m"] > 0:
+                plain, guarded = reads[:g["m"] - 1], reads[g["m"] - 1:]
+                lines = ["  " + x for x in plain] + ["  if (argc >= %d) {" % g["m"]] + ["    " + x for x in guarded] + ["  }"]
+            else:
+                lines = ["  " + x for x in reads]
+            out.append("static void c_%s(mrbc_vm *vm, mrbc_value v[], int argc)\n{\n%s\n}\n" % (fn, "\n".join(lines)))
+            regs.append("  mrbc_define_method(vm, cls, \"m%d\", c_%s);" % (i, fn))
+            continue
+        if c["kind"] == "cany":
+            spec = "MRB_ARGS_ANY()"
+        elif c["kind"] == "cspec":
             s = c["c"]
             macros = []
             if s["r"]:
@@ -40,12 +60,22 @@ def c_source(cases):
         else:
             fmt = "".join(c["f"])
             # the aspec of a function that parses its arguments itself is informational: keep it neutral
-            spec = "MRB_ARGS_ANY()" if False else "MRB_ARGS_OPT(0)"
+            spec = "MRB_ARGS_OPT(0)"
             body = "  mrb_get_args(mrb, \"%s\");\n  return mrb_nil_value();" % fmt if fmt else body
         out.append("static mrb_value %s(mrb_state *mrb, mrb_value self)\n{\n%s\n}\n" % (fn, body))
-        regs.append("  mrb_define_method(mrb, cls, \"m%d\", %s, %s);" % (i, fn, spec))
+        if form == "method_id":
+            regs.append("  mrb_define_method_id(mrb, cls, MRB_SYM(m%d), %s, %s);" % (i, fn, spec))
+        elif form == "class_method":
+            regs.append("  mrb_define_class_method(mrb, cls, \"m%d\", %s, %s);" % (i, fn, spec))
+        else:
+            regs.append("  mrb_define_method(mrb, cls, \"m%d\", %s, %s);" % (i, fn, spec))
     out.append("void mrb_vf_gem_init(mrb_state *mrb)\n{\n  struct RClass *cls = mrb_define_class(mrb, \"VfC\", mrb->object_class);\n%s\n}\n" % "\n".join(regs))
     return "\n".join(out)
+
+
+def case_text(c):
+    return json.dumps(c.get("c") or c.get("g") or ("".join(c["f"]) if "f" in c else "MRB_ARGS_ANY")) + (
+        "/" + c["form"] if c.get("form", "method") != "method" else "")
 
 
 def kind_of(a):
@@ -69,11 +99,13 @@ def run(tier, work):
         raise C.HarnessError("intended c2json model violates the arity equivalence")
     if T.model_holds(work, stats, "cspec", True, False, "SpecArity"):
         raise C.HarnessError("self-test: truncated MRB_ARGS still satisfies the arity equivalence (vacuous)")
-    cases = T.emit(work, stats, "cspec", True, whole) + T.emit(work, stats, "cfmt", True, True)
+    if not T.model_holds(work, stats, "cany", True, True, "AnyArity") or not T.model_holds(work, stats, "cgetarg", True, True, "GetArity"):
+        raise C.HarnessError("intended c2json model violates the arity equivalence (ANY / GET_ARG)")
+    cases = (T.emit(work, stats, "cspec", True, whole) + T.emit(work, stats, "cany", True, True)
+             + T.emit(work, stats, "cgetarg", True, True) + T.emit(work, stats, "cfmt", True, True))
     if tier == "quick":
-        specs = [c for c in cases if c["kind"] == "cspec"]
         fmts = [c for c in cases if c["kind"] == "cfmt"]
-        cases = specs + rng.sample(fmts, 120)
+        cases = [c for c in cases if c["kind"] != "cfmt"] + rng.sample(fmts, 150)
     tool = T.build_tool(work, "./cmd/c2json", "ti-c2json")
     d = work.sub("c2json")
     src = os.path.join(d, "vf.c")
@@ -88,16 +120,21 @@ def run(tier, work):
         v.fail("nondeterministic-output", "two conversions of the same C file differ", {"input/vf.c": c_source(cases)})
     conf = json.loads(outs[0])
     byname = {m["name"]: m for m in conf.get("instance_methods") or []}
+    byname_static = {m["name"]: m for m in conf.get("class_methods") or []}
     conf.setdefault("class_methods", []).append({"name": "new", "arguments": [], "return_type": {"type": ["VfC"]}})
     cfg = T.config_with(work, "c2jsoncfg", [conf])
     jobs, meta = [], []
     shape_checked = 0
     for i, c in enumerate(cases):
-        m = byname.get("m%d" % i)
+        static = c.get("form") == "class_method"
+        m = (byname_static if static else byname).get("m%d" % i)
         if m is None:
-            key = "method-dropped:%s" % c["kind"]
+            key = "method-dropped:%s:%s" % (c["kind"], c.get("form", "method"))
             if not v.seen(key):
-                v.fail(key, "ti-c2json emitted no method for case %s" % json.dumps(c.get("c") or c.get("f")), {"input/vf.c": c_source([c])})
+                v.fail(key, "ti-c2json emitted no %s method for case %s" % ("class" if static else "instance", case_text(c)),
+                       {"input/vf.c": c_source([c])})
+            else:
+                v.again(key)
             continue
         got = [kind_of(a) for a in m["arguments"]]
         want = [a["kind"] for a in c["e"]]
@@ -105,8 +142,8 @@ def run(tier, work):
         if got != want:
             v.count("emission_differs_from_model")
             if len(v.notes) < 6:
-                v.notes.append("model-drift: %s emitted %s, model %s" % (json.dumps(c.get("c") or c.get("f")), got, want))
-        rows = ["o = VfC.new"] + T.arity_rows("o", "m%d" % i, [], m["arguments"])
+                v.notes.append("model-drift: %s emitted %s, model %s" % (case_text(c), got, want))
+        rows = ["o = VfC.new"] + T.arity_rows("VfC" if static else "o", "m%d" % i, [], m["arguments"])
         jobs.append({"cfg": cfg, "files": {"t.rb": "\n".join(rows) + "\n"}, "args": ["t.rb"]})
         meta.append(i)
     wr = C.Runner(work, "worker")
@@ -120,11 +157,16 @@ def run(tier, work):
         if res.hung or res.crashed or res.get("exit") != 0:
             key = "ti-fails-on-converted-config:%s" % res.get("site")
             if not v.seen(key):
-                v.fail(key, "ti fails on the configuration converted from %s" % json.dumps(c.get("c") or c.get("f")), C.job_files_for_replay(job))
+                v.fail(key, "ti fails on the configuration converted from %s" % case_text(c), C.job_files_for_replay(job))
             continue
         acc = T.accepted_by_row(res["out"], 2, 7)
         want = [c["acc"][str(k)] if isinstance(c["acc"], dict) else c["acc"][k] for k in range(7)]
         checked += 1
+        if c["kind"] == "cgetarg":
+            # an mrubyc function does not check argc itself: what happens with MORE arguments than it reads is not
+            # defined by the C source, so only k <= n is judged
+            top = max(k for k in range(7) if want[k])
+            acc, want = acc[:top + 1], want[:top + 1]
         if acc == want:
             continue
         if c["kind"] == "cspec":
@@ -138,6 +180,11 @@ def run(tier, work):
                 key = "Dev_TrailingAfterOptionalArity"
             else:
                 key = "arity:MRB_ARGS:%s" % "|".join(c["macros"])
+        elif c["kind"] == "cany":
+            key = "arity:MRB_ARGS_ANY:%s" % c["form"]
+        elif c["kind"] == "cgetarg":
+            key = "arity:GET_ARG:n%d-argc%d" % (c["g"]["n"], c["g"]["m"])
+
         else:
             key = "arity:get_args:%s" % "".join(c["f"])
             if "*" in c["f"] and "&" in c["f"]:
@@ -152,11 +199,13 @@ def run(tier, work):
         files = C.job_files_for_replay(job)
         files["input/vf.c"] = c_source([c])
         v.fail(key, "%s: the C definition accepts %s arguments, ti with the generated configuration accepts %s" % (
-            json.dumps(c.get("c") or "".join(c.get("f"))), [k for k in range(7) if want[k]], [k for k in range(7) if acc[k]]), files)
+            case_text(c), [k for k in range(len(want)) if want[k]], [k for k in range(len(acc)) if acc[k]]), files)
     v.sample({"case": cases[5]})
     cov = {"states": stats["states"], "transitions": stats["transitions"], "traces_validated_against_impl": shape_checked,
            "cases": len(cases), "arity_probes": checked * 7, "notes": v.notes, "exhaustive": tier != "quick",
-           "rule": "72 MRB_ARGS combinations + mrb_get_args formats of up to 4 characters enumerated by TLC; one C function per case, "
+           "rule": "72 MRB_ARGS combinations x 3 definition forms (mrb_define_method / _method_id / _class_method), MRB_ARGS_ANY, "
+                   "mrbc_define_method bodies with GET_*_ARG(1..n) and an argc guard, mrb_get_args formats of up to 4 characters over "
+                   "i S o | * & ! ? - all enumerated by TLC; one C function per case, "
                    "the real ti-c2json run twice, its configuration loaded into ti and every method called with 0..6 arguments"}
     return v.finish("model_checking", cov, assumptions=[
         "a `new` class method is added to the generated configuration so that instance methods can be called (scaffolding)",
